@@ -199,6 +199,8 @@ impl RpcActions for SimRpc {
 pub enum Ports {
     None,
     Single,
+    /// a single port equal to the *last* port of `Range`
+    SingleLast,
     Range,
 }
 
@@ -264,6 +266,7 @@ impl Sys {
         let port = |p: Ports| match p {
             Ports::None => None,
             Ports::Single => Some(PortRange::Single(12000)),
+            Ports::SingleLast => Some(PortRange::Single(12001)),
             Ports::Range => Some(PortRange::Range(12000, 12001)),
         };
         AddNodeServiceOptions {
@@ -354,6 +357,11 @@ impl System for Sys {
         if self.reg.nodes.len() < self.max_services {
             ops.push(Op::Add { count: 1, ports: Ports::None });
             ops.push(Op::Add { count: 1, ports: Ports::Single });
+            ops.push(Op::Add { count: 1, ports: Ports::SingleLast });
+            // a range request against a registry that already records its first or its last port: must be refused
+            if self.reg.nodes.len() == 1 && self.reg.nodes.iter().any(|n| matches!(n.node_port, Some(12000) | Some(12001))) {
+                ops.push(Op::Add { count: 2, ports: Ports::Range });
+            }
             if self.reg.nodes.is_empty() {
                 ops.push(Op::Add { count: 2, ports: Ports::None });
                 ops.push(Op::Add { count: 2, ports: Ports::Range });
@@ -411,6 +419,7 @@ impl System for Sys {
                 let requested: Vec<u16> = match ports {
                     Ports::None => vec![],
                     Ports::Single => vec![12000],
+                    Ports::SingleLast => vec![12001],
                     Ports::Range => vec![12000, 12001],
                 };
                 let port_taken = self.reg.nodes.iter().any(|n| requested.iter().any(|p| n.node_port == Some(*p) || n.metrics_port == Some(*p) || n.rpc_socket_addr.port() == *p));
